@@ -84,9 +84,47 @@ Definition remove_col (col : Z) (sh : sheet) : res sheet :=
   if (col <? 1) || (col >? MaxColumns) then Err 2
   else Ok (mkSheet (map (remove_col_row col) (rows sh)) (adjust_cols col (-1) (cols sh)) (adjust_merges false col (-1) (merges sh))).
 
+(* rows.go:DuplicateRowTo: the source row is looked up, adjustHelper(rows, rw2, +1) shifts everything at or below
+   the target (without the argument checks of InsertRows), the copy (cells renamed to the target row; row attributes
+   kept) is stored at the target position - replacing the inserted blank row, or after filling the gap when the target
+   lies below the last row - and single-row merged ranges of the source row are repeated on the copy
+   (rows.go:duplicateMergeCells, which gives up when a taller range strictly contains the target row). *)
+Definition dup_cell (rw2 : Z) (c : cell) : cell := mkCell (c_col c) rw2 (c_s c) (c_t c) (c_v c) (c_f c).
+Definition shift_down (rw n : Z) (sh : sheet) : sheet :=
+  let len := Z.of_nat (length (rows sh)) in
+  mkSheet (if rw <=? len
+           then firstn (Z.to_nat (rw - 1)) (rows sh) ++ new_rows (Z.to_nat n) rw ++ map (shift_row n) (skipn (Z.to_nat (rw - 1)) (rows sh))
+           else rows sh)
+          (cols sh) (adjust_merges true rw n (merges sh)).
+Definition place_row (rw2 : Z) (copy : row) (sh : sheet) : sheet :=
+  let len := Z.of_nat (length (rows sh)) in
+  mkSheet (if rw2 <=? len then upd (rows sh) (Z.to_nat (rw2 - 1)) (fun _ => copy)
+           else rows sh ++ new_rows (Z.to_nat (rw2 - len - 1)) (len + 1) ++ [copy])
+          (cols sh) (merges sh).
+Definition dup_merges (rw rw2 : Z) (sh : sheet) : sheet :=
+  let src := if rw >? rw2 then rw + 1 else rw in
+  if existsb (fun m : rect => let '(_, y1, _, y2) := m in (y1 <? rw2) && (rw2 <? y2)) (merges sh) then sh
+  else fold_left (fun s (m : rect) => let '(x1, y1, x2, y2) := m in
+                    if (y1 =? y2) && (y1 =? src) then merge_cell (x1, rw2, x2, rw2) s else s) (merges sh) sh.
+Definition dup_row_to (rw rw2 : Z) (sh : sheet) : res sheet :=
+  if rw <? 1 then Err 6
+  else if (rw2 <? 1) || (rw =? rw2) then Ok sh
+  else if rw2 >? TotalRows then Err 4
+  else
+    let len := Z.of_nat (length (rows sh)) in
+    if (0 <? len) && (len >=? rw2) && (len + 1 >? TotalRows) then Err 4
+    else
+      let sh1 := shift_down rw2 1 sh in
+      match nth_error (rows sh) (Z.to_nat (rw - 1)) with
+      | None => Ok sh1
+      | Some r =>
+        Ok (dup_merges rw rw2 (place_row rw2 (mkRow rw2 (map (dup_cell rw2) (r_cells r)) (r_s r) (r_ht r) (r_hidden r)) sh1))
+      end.
+
 Inductive eop :=
 | EBase (o : op)
-| EInsertRows (rw n : Z) | ERemoveRow (rw : Z) | EInsertCols (col n : Z) | ERemoveCol (col : Z).
+| EInsertRows (rw n : Z) | ERemoveRow (rw : Z) | EInsertCols (col n : Z) | ERemoveCol (col : Z)
+| EDupRowTo (rw rw2 : Z).
 
 (* a rejected edit changes nothing *)
 Definition estep (sh : sheet) (e : eop) : sheet :=
@@ -96,6 +134,7 @@ Definition estep (sh : sheet) (e : eop) : sheet :=
   | ERemoveRow rw => match remove_row rw sh with Ok s => s | _ => sh end
   | EInsertCols col n => match insert_cols col n sh with Ok s => s | _ => sh end
   | ERemoveCol col => match remove_col col sh with Ok s => s | _ => sh end
+  | EDupRowTo rw rw2 => match dup_row_to rw rw2 sh with Ok s => s | _ => sh end
   end.
 Definition erun (es : list eop) (sh : sheet) : sheet := fold_left estep es sh.
 
@@ -108,3 +147,9 @@ Definition shift_cols_spec (col n : Z) (g : grid) : grid :=
   fun c r => if c <? col then g c r else if c <? col + n then empty_obs else g (c - n) r.
 Definition remove_col_spec (col : Z) (g : grid) : grid :=
   fun c r => if c <? col then g c r else g (c + 1) r.
+(* row attributes (style, height, hidden) by row number; a row that does not exist has the defaults *)
+Definition row_attrs (sh : sheet) (rw : Z) : Z * option Z * bool :=
+  match nth_error (rows sh) (Z.to_nat (rw - 1)) with Some x => (r_s x, r_ht x, r_hidden x) | None => (0, None, false) end.
+(* the duplicate sits at rw2 and shows what row rw showed before the edit; everything from rw2 on moves down by one *)
+Definition dup_rows_spec (rw rw2 : Z) (g : grid) : grid :=
+  fun c r => if r <? rw2 then g c r else if r =? rw2 then g c rw else g c (r - 1).
